@@ -48,6 +48,18 @@ func vRun(op string, in M) M {
 	switch op {
 	case "address.Parse":
 		return parseOut(string(vBytes(in["s"])))
+	case "address.tables":
+		str := string(vBytes(in["s"]))
+		out := M{"prefix_ok": false, "prefix": -1, "prefix_str": []int{}, "version_ok": false, "version": -1, "version_str": []int{}}
+		out["panic"] = vCatch(func() {
+			if p, err := ParsePrefix(str); err == nil {
+				out["prefix_ok"], out["prefix"], out["prefix_str"] = true, int(p), vInts([]byte(p.String()))
+			}
+			if v, err := ParseVersion(str); err == nil {
+				out["version_ok"], out["version"], out["version_str"] = true, int(v), vInts([]byte(v.String()))
+			}
+		})
+		return out
 	case "address.Bech32":
 		pre, ver, hash := vIntOf(in["prefix"]), vIntOf(in["version"]), vBytes(in["hash"])
 		var s string
@@ -66,6 +78,9 @@ func TestVerifDriver(t *testing.T) {
 		r := vRand(19)
 		n := vEnvInt("VERIF_N", 200)
 		hrps := []string{"iota", "atoi", "smr", "rms", "iot", "smrx", "IOTA", "rmS", "x"}
+		for _, t := range append(append([]string{}, hrps...), "Ed25519", "Alias", "NFT", "ed25519", "alias", "Nft", "", "NFT ") {
+			do("address.tables", M{"s": vInts([]byte(t))})
+		}
 		for k := 0; k < n; k++ {
 			ver := []int{0, 8, 16}[r.Intn(3)]
 			l := 20
